@@ -199,8 +199,8 @@ HARNESSES = [
     Harness(
         name="H09-redis-late-arrival", scenario=h09, workers=16, budget_s=900,
         params={"quick": {"n_jobs": 3, "queues": 1, "dmax_us": 150000, "max_limit": 1, "backend": "redis", "late": True, "late_max_us": 2500000, "fixed_d_us": 150000},
-                "thorough": {"n_jobs": 3, "queues": 1, "dmax_us": 250000, "max_limit": 2, "backend": "redis", "late": True, "late_max_us": 2500000}},
-        bounds={"broker": "Redis consumer on the fake server", "jobs": "worker idle first; a burst of 2 at 0.5 s + any real phase in [0, 0.1 s]; a third 0.3 s, 1 s or 2.1 s later", "durations": "150 ms each (quick) / any real in (0, 250 ms] (thorough)", "tasks_limit": "1 quick / [1,2] thorough"},
+                "thorough": {"n_jobs": 3, "queues": 1, "dmax_us": 250000, "max_limit": 1, "backend": "redis", "late": True, "late_max_us": 2500000}},
+        bounds={"broker": "Redis consumer on the fake server", "jobs": "worker idle first; a burst of 2 at 0.5 s + any real phase in [0, 0.1 s]; a third 0.3 s, 1 s or 2.1 s later", "durations": "150 ms each (quick) / any real in (0, 250 ms] (thorough)", "tasks_limit": "1"},
         covers=["run-returned"], stubs=["fake Redis server"]),
     Harness(
         name="H09-late-arrival", scenario=h09, workers=16, budget_s=900, tiers=("thorough",),
